@@ -85,8 +85,7 @@ func observe(d sceneDesc) *docs {
 	b := build(d)
 	rd := resolveDesc(d) // the by-value scene: what the model and the oracles judge against
 	x := &docs{sc: coqScene(rd, b), key: descKey(d), live: len(liveModels(rd)) > 0, rd: rd}
-	x.glb = guarded(func(w *bytes.Buffer) error { return gltf.WriteBinary(b.scene, w) })
-	x.txt = guarded(func(w *bytes.Buffer) error { return gltf.WriteText(b.scene, w) })
+	x.glb, x.txt = writeVia(d, b.scene, x)
 	if x.glb.crash != "" || x.txt.crash != "" {
 		x.setFail("gltf:crash", "writer panicked: "+x.glb.crash+" "+x.txt.crash)
 	}
@@ -125,6 +124,88 @@ func observe(d sceneDesc) *docs {
 		x.setFail("gltf:buffer-uri", "GLB buffer 0 has a uri")
 	}
 	return x
+}
+
+// textOf is what gltf.WriteText does with a writer that already exists
+func textOf(w *gltf.Writer, out *bytes.Buffer) error {
+	js, err := json.MarshalIndent(w.ToGLTF(gltf.BufferEmbeddingStrategy_Base64Encode), "", "    ")
+	if err != nil {
+		return err
+	}
+	_, err = out.Write(js)
+	return err
+}
+
+// writeVia produces the two documents the way d.Via says (public API of formats/gltf only)
+func writeVia(d sceneDesc, sc gltf.PolyformScene, x *docs) (glb, txt writeResult) {
+	fill := func(w *gltf.Writer) error {
+		switch d.Via {
+		case "split":
+			k := d.Split
+			if k < 0 || k > len(sc.Models) {
+				k = len(sc.Models)
+			}
+			if err := w.AddScene(gltf.PolyformScene{Models: sc.Models[:k]}); err != nil {
+				return err
+			}
+			return w.AddScene(gltf.PolyformScene{Models: sc.Models[k:], Lights: sc.Lights})
+		case "addlight":
+			if err := w.AddScene(gltf.PolyformScene{Models: sc.Models}); err != nil {
+				return err
+			}
+			for _, l := range sc.Lights {
+				w.AddLight(l)
+			}
+			return nil
+		}
+		return w.AddScene(sc)
+	}
+	switch d.Via {
+	case "reuse":
+		var w *gltf.Writer
+		first := guarded(func(out *bytes.Buffer) error {
+			var err error
+			if w, err = gltf.NewWriterFromScene(sc); err != nil {
+				return err
+			}
+			return w.WriteGLB(out)
+		})
+		if first.err != nil || w == nil {
+			return first, first
+		}
+		txt = guarded(func(out *bytes.Buffer) error { return textOf(w, out) })
+		glb = guarded(func(out *bytes.Buffer) error { return w.WriteGLB(out) })
+		// writing a document must not change the writer: same container length, same BIN chunk both times
+		// (the JSON text may list extensionsUsed in another order: map iteration)
+		if glb.err == nil {
+			g1, e1 := parseGLB(first.out)
+			g2, e2 := parseGLB(glb.out)
+			if e1 != nil || e2 != nil || len(first.out) != len(glb.out) || !bytes.Equal(g1.Bin, g2.Bin) {
+				x.setFail("gltf:writer-reuse", fmt.Sprintf("second WriteGLB of one Writer differs from the first: %d vs %d bytes, BIN %d vs %d bytes",
+					len(glb.out), len(first.out), len(g2.Bin), len(g1.Bin)))
+			}
+		}
+		return glb, txt
+	case "split", "addlight":
+		glb = guarded(func(out *bytes.Buffer) error {
+			w := gltf.NewWriter()
+			if err := fill(w); err != nil {
+				return err
+			}
+			return w.WriteGLB(out)
+		})
+		txt = guarded(func(out *bytes.Buffer) error {
+			w := gltf.NewWriter()
+			if err := fill(w); err != nil {
+				return err
+			}
+			return textOf(w, out)
+		})
+		return glb, txt
+	}
+	glb = guarded(func(out *bytes.Buffer) error { return gltf.WriteBinary(sc, out) })
+	txt = guarded(func(out *bytes.Buffer) error { return gltf.WriteText(sc, out) })
+	return glb, txt
 }
 
 func sceneCase(d sceneDesc) hx.Case {
@@ -244,6 +325,9 @@ func main() {
 			run.Count("scene:rejected")
 		}
 		run.Count(fmt.Sprintf("scene:models=%d", len(d.Models)))
+		if d.Via != "" {
+			run.Count("via:" + d.Via)
+		}
 		starts := map[[2]int]map[int]bool{}
 		for _, mo := range d.Models {
 			if mo.SameAs != nil {
